@@ -183,6 +183,28 @@ Definition root_domain (V : variant) (w : world) (src : res) (m : pymod) : bool 
   | RDir _ => false
   end.
 
+(* ---------------------------------------------------------------- by-standers of MoveModule *)
+
+(* the project without the moving file *)
+Definition hide_world (src : res) (w : world) : world :=
+  {| w_l := filter (fun r => negb (res_eqb r src)) (w_l w); w_g := w_g w |}.
+
+(* A module with ANY import statements and references that rope leaves alone (no occurrence of the mover) and
+   whose references mean the same with the moving file taken out of the project: nothing it says goes through
+   the mover.  (Python's meaning; checked by evaluation on every generated case.) *)
+Definition bystander_domain (w : world) (src : res) (dest : path) (m : pymod) : bool :=
+  match src with
+  | RPy p b =>
+      let l := w_l w in
+      wf_layout l && has_py l p b && negb (N.eqb b INIT)
+      && negb (has_py l dest b) && negb (is_some (assoc_res (RPy dest b) (w_g w)))
+      && negb (occurs_in_module w src true m (m_imports m) (m_refs m))
+      && negb (res_eqb (m_res m) src) && negb (res_eqb (m_res m) (RPy dest b))
+      && is_dir l (m_folder m) && mem (m_res m) l
+      && forallb (fun r => opt_eqb obj_eqb (resolve_ref w m r) (resolve_ref (hide_world src w) m r)) (m_refs m)
+  | RDir _ => false
+  end.
+
 (* ---------------------------------------------------------------- ModuleToPackage *)
 
 (* turning module p/b.py into the package p/b/ : the module exists, no folder p/b yet *)
